@@ -5,6 +5,8 @@ import (
 	"go/types"
 	"strconv"
 	"strings"
+
+	"golang.org/x/tools/go/ssa"
 )
 
 var intrinsics map[string]func(in *Interp, args []Val) Val
@@ -166,8 +168,14 @@ func (in *Interp) errorsIs(err, target Val) bool {
 			cur = ev.Wrapped.(Iface)
 			continue
 		}
-		m := in.lookupMethod(cur.T, nil, "Unwrap")
-		if m == nil || m.Signature.Results().Len() != 1 {
+		var m *ssa.Function
+		ms := in.w.prog.MethodSets.MethodSet(cur.T)
+		for i := 0; i < ms.Len(); i++ {
+			if sel := ms.At(i); sel.Obj().Name() == "Unwrap" {
+				m = in.w.prog.MethodValue(sel)
+			}
+		}
+		if m == nil || m.Signature.Results().Len() != 1 || m.Signature.Params().Len() != 0 {
 			return false
 		}
 		r := in.callFunction(m, []Val{cur.V}, nil)
